@@ -250,7 +250,11 @@ def two_point_case(ctx, rng, quats, kinds, law_name, compliance, records, wheres
     tpi = TwoPointInteraction(subs[0].obj, subs[1].obj, B_r_CP1=B[0], B_r_CP2=B[1])
     k, d, holder = law_params(rng, law_name, compliance)
     lref = float(rng.choice([0.0, 1.0, 0.5, 2.0]))
+    if law_name in ACTS:       # controllers measure the elongation from their set point tau0
+        holder["tau0"] = lref if law_name != "motor" else float(rng.choice([1.0, -2.0, 0.5]))
     law = make_law(tpi, law_name, compliance, k, d, lref, holder)
+    if law_name in ACTS:       # actuators do not run their subsystem's assembler callback: the interaction is a contribution of its own
+        system.add(tpi)
     system.add(law)
     assemble(system)
     n = 0
@@ -505,6 +509,7 @@ def run(ctx):
     nstates = 3 if ctx.thorough else 1
     nrep = 8 if ctx.thorough else 2
     for rep in range(nrep):
+        # actuators are supported on Revolute joints only (on a TwoPointInteraction their shape conventions do not fit: outside the property's quantifier)
         for law_name, compliance in LAWS:
             for kinds in TWO_PAIRS:
                 where = dict(element=law_name, compliance=compliance, on="TwoPointInteraction", subsystems=list(kinds))
